@@ -70,6 +70,32 @@ static std::string faceinfo(gr_face *f) {
         for (unsigned j = 0; j < gr_fref_n_values(r); ++j) { snprintf(buf, sizeof buf, ",%d", gr_fref_value(r, j)); out += buf; }
     }
     for (unsigned i = 0; i < gr_face_n_languages(f); ++i) { snprintf(buf, sizeof buf, " l:%x", gr_face_lang_by_index(f, i)); out += buf; }
+    // labels (name table), lookup by id, default feature values per language and their queries
+    unsigned long lab = 0;
+    for (unsigned i = 0; i < gr_face_n_fref(f) && i < 40; ++i) {
+        const gr_feature_ref *r = gr_face_fref(f, i);
+        for (int enc = 1; enc <= 4; enc *= 2) {
+            gr_uint16 lang = 0x0409; gr_uint32 len = 0;
+            void *l = gr_fref_label(r, &lang, (gr_encform)enc, &len);
+            if (l) { lab += len + 1; gr_label_destroy(l); }
+        }
+        for (unsigned j = 0; j < gr_fref_n_values(r) && j < 20; ++j) {
+            gr_uint16 lang = 0x0409; gr_uint32 len = 0;
+            void *l = gr_fref_value_label(r, (gr_uint16)j, &lang, gr_utf8, &len);
+            if (l) { lab += len + 1; gr_label_destroy(l); }
+        }
+        if (gr_face_find_fref(f, gr_fref_id(r)) == 0) lab += 1000000;
+    }
+    for (unsigned i = 0; i <= gr_face_n_languages(f) && i < 30; ++i) {
+        gr_feature_val *fv = gr_face_featureval_for_lang(f, i < gr_face_n_languages(f) ? gr_face_lang_by_index(f, i) : 0x12345678);
+        if (fv) {
+            gr_feature_val *c2 = gr_featureval_clone(fv);
+            for (unsigned k = 0; k < gr_face_n_fref(f) && k < 40; ++k) lab += gr_fref_feature_value(gr_face_fref(f, k), c2 ? c2 : fv);
+            if (c2) gr_featureval_destroy(c2);
+            gr_featureval_destroy(fv);
+        }
+    }
+    snprintf(buf, sizeof buf, " lab=%lu", lab); out += buf;
     static const unsigned probe[] = {0, 0x20, 0x41, 0x61, 0xe9, 0x3b1, 0x627, 0x633, 0x1000, 0x1031, 0x200c, 0xfffd, 0xffff, 0x10000, 0x1f600, 0x10ffff};
     out += " cs:";
     for (unsigned u : probe) out += gr_face_is_char_supported(f, u, 0) ? '1' : '0';
